@@ -46,6 +46,24 @@ class CliAdapter:
                 kw[k] = cfg[k]
         self.c = fakeeio.make_client(self.world, asyncio_based=self.is_async,
                                      **kw)
+        if self.is_async and cfg.get('reconnection'):
+            # the reconnection effort itself is C10's subject (Reconnect.tla):
+            # here its task exists but has not begun to run
+            c = self.c
+            orig_sbt = c.start_background_task
+
+            class Parked:
+                def __await__(self):
+                    return iter(())
+
+                def cancel(self):
+                    pass
+
+            def sbt(target, *a, **k):
+                if getattr(target, '__name__', '') == '_handle_reconnect':
+                    return Parked()
+                return orig_sbt(target, *a, **k)
+            c.start_background_task = sbt
         self.hc = []
         self.cbs = []
         self.srv_acc = []       # namespaces the (conformant) server accepted
@@ -63,7 +81,9 @@ class CliAdapter:
         coro = self.is_async and self.cfg.get('coro', False)
 
         def wrap(f):
-            if not coro:
+            # (an AsyncClient's handlers may be plain functions too: every
+            # other event keeps one)
+            if not coro or getattr(f, 'plain', False):
                 return f
 
             async def g(*a):
@@ -88,6 +108,10 @@ class CliAdapter:
                 if EVENTS[ev] is None:
                     raise Boom(ev)
                 return EVENTS[ev]()
+            # (the two events of RxAttThenEvent both suspend, so that their
+            # answers keep the order of arrival)
+            h.plain = ev not in ('e_v', 'e_tup2') and \
+                sorted(EVENTS).index(ev) % 2 == 0
             return h
 
         hk = self.cfg.get('hkind', 'fn')
